@@ -51,7 +51,7 @@ func (p sessProp) Key(inp interface{}) (string, bool) {
 		fmt.Fprintf(&b, "[%s%v", c.Cert, c.NoDial)
 		for _, g := range c.Groups {
 			for _, it := range g {
-				b.WriteString(it.T + it.Typ + it.Pl + it.Res + fmt.Sprint(it.TLS, it.Sess, it.SM, it.Err) + ",")
+				b.WriteString(it.T + it.Typ + it.Pl + it.Res + it.NS + fmt.Sprint(it.TLS, it.Sess, it.SM, it.Err) + ",")
 				n++
 			}
 		}
@@ -75,9 +75,10 @@ func (p sessProp) Oracle(inp interface{}, obs Sx) (string, string) {
 		return "connection count differs", "shape"
 	}
 	prevID, prevInb, prevJid := "", int64(0), ""
-	smEnable := in.SMEnable
-	expInb := int64(0) // stanzas the SERVER pushed on the current stream-managed session (independent of the client's own counter)
-	expID := ""        // id of the last <enabled/> that completed a negotiation; "" once a resumption with it was not confirmed (scenario-derived, not read from the client)
+	smEnable := in.SMEnable   // the application's wish for stream management: no connection takes it away
+	resumeWish := in.SMResume // ... its wish for resumption: gone once an <enabled/> has not granted it (scenario-derived)
+	expInb := int64(0)        // stanzas the SERVER pushed on the current stream-managed session (independent of the client's own counter)
+	expID := ""               // id of the last <enabled/> that completed a negotiation; "" once a resumption with it was not confirmed (scenario-derived, not read from the client)
 	for ci, co := range obs.L {
 		reqs, res, snap := co.L[0].L, co.L[1], co.L[2]
 		ok := res.L[0].Z == 0
@@ -109,6 +110,11 @@ func (p sessProp) Oracle(inp interface{}, obs Sx) (string, string) {
 				}
 			case 4:
 				sawBind = true
+			case 6:
+				// ---- <enable resume=.../>: what the application wished for, unless an earlier <enabled/> refused resumption
+				if got := rq.L[0].L[1].Z == 1; got != resumeWish {
+					return fmt.Sprintf("conn %d: <enable/> sent with resume=%v; the application asked for resume=%v and an earlier <enabled/> without resumption granted: %v", ci, got, in.SMResume, in.SMResume && !resumeWish), "enable-resume-flag"
+				}
 			}
 			// ---- C04: nothing but stream headers and <starttls/> outside TLS
 			if !in.Insecure && !secure && k != 0 && k != 1 {
@@ -157,11 +163,24 @@ func (p sessProp) Oracle(inp interface{}, obs Sx) (string, string) {
 		}
 		if want && enabledRes != "" {
 			if granted, err := strconv.ParseBool(enabledRes); err != nil || !granted {
-				smEnable = false // the server did not grant resumption: the client stops asking for stream management
+				// the server did not grant resumption: only that wish is gone; stream management is on for this session,
+				// and later streams are asked for <enable/> again
+				resumeWish = false
 			}
 		}
 		if ok != want {
 			return fmt.Sprintf("conn %d: Connect returned ok=%v but the server script completes the mandatory steps: %v", ci, ok, want), fmt.Sprintf("success-mismatch-%v", ok)
+		}
+		// ---- C03: "... and the session-established state is announced - exactly when ..." (events delivered to the
+		// EventHandler while Client.connect ran, and until the connection was over): once iff the script completes
+		if len(co.L) >= 5 && len(co.L[4].L) == 2 {
+			wantN := int64(0)
+			if want {
+				wantN = 1
+			}
+			if atRet, atEnd := co.L[4].L[0].Z, co.L[4].L[1].Z; atRet != wantN || atEnd != wantN {
+				return fmt.Sprintf("conn %d: the session-established state was announced %d time(s) by the time connect returned and %d time(s) by the end of the connection; the server script completes the mandatory steps: %v (Connect returned ok=%v)", ci, atRet, atEnd, want, ok), fmt.Sprintf("established-%d-%d-want-%d", atRet, atEnd, wantN)
+			}
 		}
 		// ---- C11: outcome of a resumption attempt
 		id := string(bytesOf(snap.L[1]))
@@ -361,13 +380,14 @@ func scriptCompletes(in sessIn, c sessConn, prevID string, smEnable bool) (bool,
 			return false, ""
 		}
 	}
+	// the bind / session result is an IQ stanza of the stream: an element merely called iq in another namespace is not
 	b := expect("iq")
-	if b == nil || b.Typ != "result" || b.Pl != "bind" {
+	if b == nil || b.Typ != "result" || b.Pl != "bind" || b.NS != "" {
 		return false, ""
 	}
 	if f.Sess == 1 {
 		s := expect("iq")
-		if s == nil || s.Typ != "result" {
+		if s == nil || s.Typ != "result" || s.NS != "" {
 			return false, ""
 		}
 	}
@@ -444,6 +464,9 @@ func replyAlphabet(heldID string) []sItem {
 		{T: "iq", Typ: "error", ID: "1", Pl: "none", Err: true},
 		{T: "iq", Typ: "get", ID: "9", Pl: "other"},
 		{T: "iq", Typ: "set", ID: "9", Pl: "bind", Jid: "user@" + srvDomain + "/y"},
+		// elements CALLED iq in a namespace that is not the stream's (type result, with the expected payload): unexpected elements
+		{T: "iq", Typ: "result", ID: "1", Pl: "bind", Jid: "user@" + srvDomain + "/f", NS: "urn:example:foreign"},
+		{T: "iq", Typ: "result", ID: "1", Pl: "none", NS: "jabber:server"},
 		{T: "message", N: 1}, {T: "presence", N: 2},
 		{T: "enabled", ID: "new1", Res: "true"}, {T: "enabled", ID: "new2", Res: "false"}, {T: "enabled", ID: "new3"}, {T: "enabled", ID: "new4", Res: "maybe"},
 		{T: "resumed", ID: heldID}, {T: "resumed", ID: "someone-else"},
@@ -583,6 +606,28 @@ func genC03(r *rand.Rand, tier string) []interface{} {
 				good, _ := goodConn(in0, randShape(r, in0), "", "", "sm-g", "true")
 				in2.Conns = []sessConn{{Groups: mutate(base, gi, idx, rep)}, {Groups: good}}
 				out = append(out, in2)
+			}
+		}
+	}
+	// 3b. always (not sampled): every reply kind at the resume step of a client that holds resumable state, with the
+	//     server going on afterwards as if it had refused (bind result, session result, <enabled/>): a reply that is
+	//     neither <resumed/> with the id held nor <failed/> must end the negotiation there
+	for round := 0; round < rounds; round++ {
+		in0 := randClient(r)
+		in0.SMEnable = true
+		sh := randShape(r, in0)
+		sh.smOffer = true
+		held := "held-k"
+		base, labels := goodConn(in0, sh, held, "failed", "sm-kk", "true")
+		for gi, l := range labels {
+			if l != "resume" {
+				continue
+			}
+			for _, rep := range replyAlphabet(held) {
+				in := in0
+				in.Tag = "keep:resume"
+				in.Conns = []sessConn{firstConnWithSM(in, r, held, 0), {Groups: mutateKeep(base, gi, 0, rep)}}
+				out = append(out, in)
 			}
 		}
 	}
@@ -790,14 +835,100 @@ func genC11(r *rand.Rand, tier string) []interface{} {
 			}
 		}
 	}
+	return append(out, genC11long(r, tier)...)
+}
+
+// genC11long: histories of 4-7 connections: a stream-managed session, then a random walk over {resumption confirmed,
+// refused (a new session with a new id follows), answered with another id / something unexpected / a cut connection
+// (the state is gone: the next connection must bind), failed attempts of every kind in between}. The oracle derives
+// from the SCRIPT which id may still be presented at each point (expID in Oracle).
+func genC11long(r *rand.Rand, tier string) []interface{} {
+	n := 40
+	if tier == "thorough" {
+		n = 600
+	}
+	var out []interface{}
+	bad := []sItem{{T: "resumed", ID: "other-id"}, {T: "message", N: 1}, {T: "close"}, {T: "eof"}, {T: "malformed"}, {T: "unknown"}, {T: "success"}}
+	for i := 0; i < n; i++ {
+		in := sessIn{Insecure: true, SMEnable: true, SMResume: true, Tag: "resume-long"}
+		held := fmt.Sprintf("L%d-0", i)
+		conns := []sessConn{firstConnWithSM(in, r, held, r.Intn(5))}
+		steps := 3 + r.Intn(4)
+		for k := 1; k <= steps; k++ {
+			newID := fmt.Sprintf("L%d-%d", i, k)
+			switch c := r.Intn(10); {
+			case c < 3: // failed attempt(s) that ask nothing
+				conns = append(conns, failedAttempt(in, keepingFailures[r.Intn(len(keepingFailures))], held))
+			case c < 6 && held != "": // confirmed
+				g, _ := goodConn(in, shape{smOffer: true, sess: r.Intn(2)}, held, "resumed", "unused", "true")
+				conns = append(conns, sessConn{Groups: g, Traffic: r.Intn(4)})
+			case c < 8 && held != "": // refused: bind, new id
+				g, _ := goodConn(in, shape{smOffer: true, sess: r.Intn(2)}, held, "failed", newID, "true")
+				conns = append(conns, sessConn{Groups: g, Traffic: r.Intn(4)})
+				held = newID
+			case held != "": // anything else: the state is gone and the connection fails
+				g, labels := goodConn(in, shape{smOffer: true}, held, "failed", newID, "true")
+				for gi, l := range labels {
+					if l == "resume" {
+						g = mutate(g, gi, 0, bad[r.Intn(len(bad))])
+						break
+					}
+				}
+				conns = append(conns, sessConn{Groups: g})
+				held = ""
+			default: // nothing held: a fresh stream-managed session
+				g, _ := goodConn(in, shape{smOffer: true, sess: r.Intn(2)}, "", "", newID, "true")
+				conns = append(conns, sessConn{Groups: g, Traffic: r.Intn(4)})
+				held = newID
+			}
+		}
+		in.Conns = conns
+		out = append(out, in)
+	}
 	return out
 }
 
 func init() {
 	register(sessProp{id: "C03", gen: genC03, rule: "scripted TCP/TLS server against the real Client.connect: good scripts for random client configurations and feature shapes, then the per-step alphabet: every step (each stream header, each features element, proceed, auth reply, resume reply, bind reply, session reply, enable reply) x every reply kind (32 kinds: success variants, failure/error replies with and without echoed payload, unexpected elements of every other kind, malformed XML, stream close, connection drop) with all other steps successful, with and without resumable state; quick tier runs a seed-dependent third of the matrix, thorough all of it 12 times with fresh shapes; distinct = configuration + script item kinds; non-trivial = script of >= 3 items; patient-server scenarios (the server answers item by item and looks, before and between the items, whether the client has already written again; it records how many items it had sent when each request showed up, which must be at least what the model says the client has consumed by then, C03_waits_for_confirmation / C03_seen_is_read): good shapes, an unrelated stanza appended to one answer, a deviation in the middle"})
 	register(c04Prop{s: sessProp{id: "C04", gen: genC04, rule: "Insecure x TLS config {RootCAs, InsecureSkipVerify, nil} x ServerName {unset, other} x STARTTLS {absent, offered, required} x reply {proceed, failure, unexpected, malformed, close, drop} x certificate {valid, wrong host, untrusted issuer, expired} x history {first connection, reconnect after a TLS session, reconnect after a clear session} against a real TLS-capable server; the server records whether each client element arrived inside TLS; quick tier a seed-dependent third, thorough the full product 6 times"}})
-	register(sessProp{id: "C11", gen: genC11, rule: "histories of 3 connections: SM enabled with id, then two reconnects whose reply to <resume/> ranges over {resumed same id, other id, failed, failed+stanza condition, every unexpected kind, malformed, close, drop} (all pairs), SM advertised or not on the second connection, random stanza traffic between connections (counted by the real receive loop); quick tier a third of the pairs, thorough all pairs 8 times"})
+	register(c11Prop{s: sessProp{id: "C11", gen: genC11, rule: "histories of 3 connections: SM enabled with id, then two reconnects whose reply to <resume/> ranges over {resumed same id, other id, failed, failed+stanza condition, every unexpected kind, malformed, close, drop} (all pairs), SM advertised or not on the second connection, random stanza traffic between connections (counted by the real receive loop); quick tier a third of the pairs, thorough all pairs 8 times; PLUS histories of 4-8 connections: a random walk over {resumption confirmed, refused (new session, new id), answered with another id / an unexpected element / malformed XML / a closed or cut stream (state gone), failed attempts that ask nothing: refused dial, failed TLS handshake, rejected password, cut at the stream restart}; the oracle derives from the SCRIPT which id may still be presented at each point"}})
 }
+
+// failedAttempt: a connection attempt that fails, of the given kind, for a client that holds the id held (or none):
+// "dial" nobody listens; "tls" STARTTLS offered, the certificate is not trusted (the handshake fails); "auth" the
+// password is rejected; "restart" the connection is cut where the stream header after authentication is awaited;
+// "nofeatures" a stanza arrives where the first features element is awaited (NewSession gives the Session object up,
+// and with it whatever the client held). All but the last leave the client's stream-management state alone.
+func failedAttempt(in sessIn, kind string, held string) sessConn {
+	if kind == "dial" {
+		return sessConn{NoDial: true}
+	}
+	sh := shape{smOffer: true}
+	if kind == "tls" || !in.Insecure {
+		sh.tlsOffer = 1
+	}
+	g, labels := goodConn(in, sh, held, "resumed", "never-issued", "true")
+	at := func(label string) int {
+		for gi, l := range labels {
+			if l == label {
+				return gi
+			}
+		}
+		return 0
+	}
+	switch kind {
+	case "tls":
+		return sessConn{Groups: g, Cert: "untrusted"}
+	case "auth":
+		return sessConn{Groups: mutate(g, at("auth"), 0, sItem{T: "saslfailure"})}
+	case "restart":
+		return sessConn{Groups: mutate(g, at("open3"), 0, sItem{T: "eof"})}
+	default: // nofeatures
+		return sessConn{Groups: mutate(g, at("open1"), 1, sItem{T: "message", N: 1})}
+	}
+}
+
+var keepingFailures = []string{"dial", "tls", "auth", "restart"}
 
 // genC09sess: stream-managed sessions with traffic, enabled with and without
 // resumption granted, continued over 1-3 resumptions (C09's "continued across a resumption").
@@ -807,6 +938,37 @@ func genC09sess(r *rand.Rand, tier string) []interface{} {
 		n = 1500
 	}
 	var out []interface{}
+	// always: enable, traffic, one failed attempt of every kind, a resumption (h = what was received before the
+	// failures), more traffic, failures again, a second resumption
+	{
+		in := sessIn{Insecure: true, SMEnable: true, SMResume: true, Tag: "c09-failures"}
+		g, _ := goodConn(in, shape{smOffer: true}, "", "", "hf-1", "true")
+		conns := []sessConn{{Groups: g, Traffic: 5}}
+		for _, k := range keepingFailures {
+			conns = append(conns, failedAttempt(in, k, "hf-1"))
+		}
+		g2, _ := goodConn(in, shape{smOffer: true}, "hf-1", "resumed", "unused", "true")
+		conns = append(conns, sessConn{Groups: g2, Traffic: 4})
+		conns = append(conns, failedAttempt(in, "auth", "hf-1"), failedAttempt(in, "dial", "hf-1"))
+		conns = append(conns, sessConn{Groups: g2, Traffic: 2})
+		conns = append(conns, sessConn{Groups: g2})
+		in.Conns = conns
+		out = append(out, in)
+	}
+	// always: <enabled/> that does not grant resumption (resume false / absent / not a boolean): stream management is
+	// on all the same (answers counted), the id is resumable as far as the client is concerned, and after a refused
+	// resumption the new stream is asked for <enable/> AGAIN (now with resume='false'): counting and answers must
+	// hold on that later session as well
+	for _, res := range []string{"false", "", "maybe"} {
+		in := sessIn{Insecure: true, SMEnable: true, SMResume: true, Tag: "c09-noresume"}
+		id1, id2 := "nr-1-"+res, "nr-2-"+res
+		g, _ := goodConn(in, shape{smOffer: true}, "", "", id1, res)
+		g2, _ := goodConn(in, shape{smOffer: true}, id1, "resumed", "unused", "true")
+		g3, _ := goodConn(in, shape{smOffer: true, sess: 1}, id1, "failed", id2, "true")
+		g4, _ := goodConn(in, shape{smOffer: true}, id2, "resumed", "unused", "true")
+		in.Conns = []sessConn{{Groups: g, Traffic: 4}, {Groups: g2, Traffic: 3}, {Groups: g3, Traffic: 5}, {Groups: g4, Traffic: 2}, {Groups: g4}}
+		out = append(out, in)
+	}
 	for i := 0; i < n; i++ {
 		in := sessIn{Insecure: true, SMEnable: true, SMResume: r.Intn(4) > 0, Tag: "c09"}
 		held := fmt.Sprintf("h-%d", i)
@@ -815,6 +977,22 @@ func genC09sess(r *rand.Rand, tier string) []interface{} {
 		g, _ := goodConn(in, sh, "", "", held, res)
 		conns := []sessConn{{Groups: g, Traffic: r.Intn(9)}}
 		for k := r.Intn(4); k > 0; k-- {
+			// failed attempts between two sessions (refused dial, failed TLS handshake, rejected password, connection cut
+			// at the stream restart): nothing is received on them and the count held must survive them unchanged
+			if r.Intn(3) == 0 {
+				for f := 1 + r.Intn(2); f > 0; f-- {
+					conns = append(conns, failedAttempt(in, keepingFailures[r.Intn(len(keepingFailures))], held))
+				}
+			} else if r.Intn(12) == 0 {
+				// ... or one that makes the client give up its Session object: what was held is gone, the next
+				// connection starts a new stream-managed session, counting from zero
+				conns = append(conns, failedAttempt(in, "nofeatures", held))
+				newHeld := fmt.Sprintf("%s-d%d", held, k)
+				g2, _ := goodConn(in, shape{smOffer: true}, "", "", newHeld, "true")
+				conns = append(conns, sessConn{Groups: g2, Traffic: r.Intn(7)})
+				held = newHeld
+				continue
+			}
 			if r.Intn(4) == 0 {
 				// a stream WITHOUT stream management in between (the server does not offer it): a plain session is
 				// bound and receives stanzas; they must not be counted into the session held from before, which is
